@@ -87,6 +87,10 @@ def process_template(path, crate, repo, gen=None, depth=0):
             extra = a[2] if len(a) > 2 else ''
             txt = X.item_text(toks)
             txt = re.sub(r'\bpub\(crate\)\s+', 'pub ', txt)
+            for rid, pat, rep in X.GLOBAL_RULES:
+                txt, k = re.subn(pat, rep, txt)
+                if k:
+                    gen.rule_counts[rid] = gen.rule_counts.get(rid, 0) + k
             if extra:
                 gen.add(extra, f'{rel}:{i+1}', tags)
             gen.add(txt, f'/repo {module}::{a[1]}', tags)
